@@ -111,10 +111,12 @@ type Result struct {
 	Fn     ast.Node
 	Before map[ast.Node]Set // must-held set before each CFG node (statement or condition)
 	May    map[ast.Node]Set
-	nodes  []ast.Node // CFG nodes sorted by position for lookup
-	Ops    []Op
-	Exits  []Exit
-	Double []Op // Lock while the same key may already be held
+	// Undeferred: locks that may be held before the node and have no deferred unlock yet
+	Undeferred map[ast.Node]Set
+	nodes      []ast.Node // CFG nodes sorted by position for lookup
+	Ops        []Op
+	Exits      []Exit
+	Double     []Op // Lock while the same key may already be held
 }
 
 // KeyOf renders the lock key of a receiver expression, or "" when it is not understood.
@@ -181,7 +183,7 @@ func LockCall(info *types.Info, call *ast.CallExpr) (key, kind string, ok bool) 
 
 // Analyze runs the data-flow on body with the given entry set.
 func Analyze(info *types.Info, fn ast.Node, body *ast.BlockStmt, entry Set) *Result {
-	res := &Result{Fn: fn, Before: map[ast.Node]Set{}, May: map[ast.Node]Set{}}
+	res := &Result{Fn: fn, Before: map[ast.Node]Set{}, May: map[ast.Node]Set{}, Undeferred: map[ast.Node]Set{}}
 	if body == nil {
 		return res
 	}
@@ -322,6 +324,13 @@ func Analyze(info *types.Info, fn ast.Node, body *ast.BlockStmt, entry Set) *Res
 		for _, n := range b.Nodes {
 			res.Before[n] = st.must.Clone()
 			res.May[n] = st.may.Clone()
+			und := Set{}
+			for k := range st.may {
+				if !st.deferred[k] {
+					und[k] = true
+				}
+			}
+			res.Undeferred[n] = und
 			apply(&st, n, true)
 			res.nodes = append(res.nodes, n)
 		}
@@ -409,4 +418,21 @@ func (r *Result) HeldByDeferred(d *ast.DeferStmt) Set {
 		}
 	}
 	return common
+}
+
+// UndeferredAt returns the locks that may be held, without a deferred unlock, before the
+// innermost CFG node containing n.
+func (r *Result) UndeferredAt(n ast.Node) Set {
+	var best ast.Node
+	for _, c := range r.nodes {
+		if c.Pos() <= n.Pos() && n.End() <= c.End() {
+			if best == nil || (c.End()-c.Pos()) < (best.End()-best.Pos()) {
+				best = c
+			}
+		}
+	}
+	if best == nil {
+		return Set{}
+	}
+	return r.Undeferred[best]
 }
